@@ -7,7 +7,21 @@ import (
 	"git.sr.ht/~rockorager/vaxis"
 )
 
+// maxParam is the largest value a CSI parameter can take (as in xterm)
+const maxParam = 65535
+
 func (vt *Model) csi(csi string, params [][]int) {
+	// The parser accumulates decimal digits without bound, so a parameter
+	// can be arbitrarily large or, after integer overflow, negative. Clamp
+	// them so no handler moves the cursor, the margins or an index by an
+	// unbounded (or negative) amount
+	for _, param := range params {
+		for i, p := range param {
+			if p < 0 || p > maxParam {
+				param[i] = maxParam
+			}
+		}
+	}
 	switch csi {
 	case "@":
 		vt.ich(ps(params))
